@@ -148,6 +148,30 @@ pub fn run_c06(out: &mut Out, seed: u64, thorough: bool) {
     for op in ["R1", "(R1)", "(R2+)", "((R0+))", "(L)", "7", "L", "(0xF0)"].iter() {
         directed(out, &format!("#! mrasm\nL:\n DEC {}", op));
     }
+    // a reference to a label that is defined nowhere, in every operand position: rejected by the parser
+    // (then the property says nothing), and if it is accepted it must still compile and load
+    for src in undefined_label_programs() {
+        directed(out, &src);
+    }
+}
+
+/// Every operand position that can carry a label, with a label that is defined nowhere (`missing`
+/// in three spellings) next to labels that are defined: the parser must reject each of them.
+pub fn undefined_label_programs() -> Vec<String> {
+    let mut v = Vec::new();
+    let forms: &[&str] = &[
+        "JR X", "JMP X", "CALL X", "JCS X", "JCC X", "JZS X", "JZC X", "JNS X", "JNC X",
+        "LD R0, X", "LD R1, (X)", "ST (X), R2", "MOV R0, X", "MOV R0, (X)", "MOV (X), R0", "MOV (X), 7", "MOV (here), (X)",
+        "MOV (X), (here)", "MOV (R1+), X", "MOV ((R2+)), (X)", "CMP R0, X", "CMP (X), R1", "CMP R2, (X)", "BITS (X), 1", "BITS R0, X",
+        "BITC (X), 0x10", "BITC R1, (X)", "BITT (X), k", "BITT R0, X", "DEC X", "DEC (X)", "LDSP X", "LDSP (X)", "LDFR X", "LDFR (X)",
+    ];
+    for name in ["missing", "Missing_1", "_m"] {
+        for f in forms {
+            let line = f.replace('X', name);
+            v.push(format!("#! mrasm\nhere:\n .EQU k 3\n {}\n JR here", line));
+        }
+    }
+    v
 }
 
 fn directed(out: &mut Out, src: &str) {
@@ -315,6 +339,8 @@ pub fn run_c03(out: &mut Out, seed: u64, thorough: bool) {
         "#! mrasm\n.DB 1,".into(), "#! mrasm\nLD R0,(R1+".into(), "#! mrasm\nLD R0,((R1))".into(),
         format!("#! mrasm\n{}", (0..41).map(|i| format!("l{}:", i)).collect::<Vec<_>>().join("\n")),
     ];
+    let mut rejects = rejects;
+    rejects.extend(undefined_label_programs());
     for r in &rejects {
         let rm = parse_str(r);
         out.emit(&format!("parse {}", hexs(r)), &rm);
